@@ -5,7 +5,7 @@ patch=$1; prop=$2; tier=${3:-quick}
 cd /repo || exit 9
 if [ -n "$(git status --porcelain)" ]; then echo "repo not clean"; exit 9; fi
 git apply "$patch" || { echo "patch does not apply"; exit 9; }
-cd /verif && ./check "$prop" --tier "$tier" 2>&1 | grep -E "^(VIOLATION|KNOWN|INCONCLUSIVE|C[0-9]+ tier|  key=)" | cut -c1-400
+cd /verif && ./check "$prop" --tier "$tier" 2>&1 | grep -E "^(VIOLATION|KNOWN|INCONCLUSIVE|C[0-9]+ tier|  key=)" | cut -c1-400 | head -14
 rc=${PIPESTATUS[0]}
 git -C /repo checkout -- . && git -C /repo clean -fdq
 echo "exit=$rc"
